@@ -45,6 +45,11 @@ func Run(outDir string, seed int64, tier string) error {
 			runs = append(runs, &modeRun{umask: u, prior: p})
 		}
 	}
+	// the operator scenario (generate-keypair, self-sign migration, dkg nuke on a folder without dkg.db,
+	// then the daemon's SaveFinished), under the umasks an operator's shell usually has
+	for _, u := range []int{0o000, 0o002, 0o022, 0o027, 0o077} {
+		runs = append(runs, &modeRun{umask: u, prior: scenarioCLI})
+	}
 	sem := make(chan struct{}, 8)
 	var wg sync.WaitGroup
 	for _, r := range runs {
@@ -64,6 +69,11 @@ func Run(outDir string, seed int64, tier string) error {
 			return r.err
 		}
 		foundDkg, foundKey, foundShare := false, false, false
+		cliRun := r.prior == scenarioCLI
+		if cliRun {
+			r.prior = ""      // every file of this scenario is created fresh
+			foundShare = true // no share FILE in this scenario: the share is in dkg.db
+		}
 		for _, o := range r.obs {
 			rep.Evaluations++
 			if o.Transient != "" {
@@ -78,6 +88,9 @@ func Run(outDir string, seed int64, tier string) error {
 			}
 			coq, dk, ok := classify(o)
 			in := map[string]interface{}{"file": o.Path, "umask": fmt.Sprintf("%04o", r.umask), "mode": fmt.Sprintf("%04o", o.Mode), "preexisting_mode": r.prior, "holds_secret_bytes": o.HasSecret}
+			if cliRun {
+				in["created_by"] = "operator commands on a folder that did not exist: drand generate-keypair; start-up self-sign migration; drand dkg nuke (creates dkg.db when there is none); then the daemon's NewDKGStore + SaveFinished wrote the share into it"
+			}
 			if !ok {
 				rep.Count("modes/unclassified-file")
 				if o.HasSecret && o.Mode&0o077 != 0 {
@@ -87,8 +100,8 @@ func Run(outDir string, seed int64, tier string) error {
 			}
 			var l string
 			if o.Dir {
-				if r.prior != "" {
-					continue // directories already exist in the pre-existing scenario
+				if r.prior != "" || cliRun {
+					continue // directories already exist in the pre-existing scenario / are all made by the key store in the operator scenario
 				}
 				l = fmt.Sprintf("DirMode %d %d %d", dk, r.umask, o.Mode)
 				rep.Count("modes/dir")
@@ -125,7 +138,11 @@ func Run(outDir string, seed int64, tier string) error {
 				}
 			}
 			lines = append(lines, l)
-			descr = append(descr, fmt.Sprintf("%s (* %s umask %04o prior %q *)", l, o.Path, r.umask, r.prior))
+			scen := ""
+			if cliRun {
+				scen = " operator-commands"
+			}
+			descr = append(descr, fmt.Sprintf("%s (* %s umask %04o prior %q%s *)", l, o.Path, r.umask, r.prior, scen))
 			if !seen[l] {
 				seen[l] = true
 				rep.DistinctNontrivial++
@@ -133,7 +150,7 @@ func Run(outDir string, seed int64, tier string) error {
 			rep.Sample(descr[len(descr)-1], 6)
 		}
 		if !(foundDkg && foundKey && foundShare) {
-			return fmt.Errorf("scanner sanity: the secret files of the child (umask %o) do not contain the secrets (dkg.db %v key %v share %v)", r.umask, foundDkg, foundKey, foundShare)
+			return fmt.Errorf("scanner sanity: the secret files of the child (umask %o, operator scenario %v) do not contain the secrets (dkg.db %v key %v share %v)", r.umask, cliRun, foundDkg, foundKey, foundShare)
 		}
 	}
 	tModes := time.Since(t0)
